@@ -23,7 +23,7 @@ func c03Check(c pairCase) fw.Outcome {
 	label := fmt.Sprintf("%s-%s/%s/%v", A.K, B.K, contact, want)
 	nonConvexOrHole := A.K == exact.KPoly && (len(A.Holes) > 0 || !convexOracle(exact.Unclose(A.Ext)))
 	nt := boxInside(A, B) && (contact != "no-boundary-contact" || nonConvexOrHole)
-	if want && shapeHash(B)%8 == 0 {
+	if want && (shapeHash(A)^shapeHash(B))%32 == 0 {
 		if q := gridRefute(A, B, func(q exact.Q) bool { return B.Member(q) && !A.Member(q) }); q != nil {
 			return fw.Outcome{Infra: "oracle self-check: contains=true but grid point " + q.String() + " is in B and not in A"}
 		}
@@ -43,6 +43,10 @@ func c03Check(c pairCase) fw.Outcome {
 	}
 	oa, ob := adapt.Obj(A, c.EA, 0), adapt.Obj(B, c.EB, 0)
 	calls = append(calls, call{"object A.Contains(B)", oa.Contains(ob)}, call{"object B.Within(A)", ob.Within(oa)})
+	if shapePoints(A) >= 60 || shapePoints(B) >= 60 {
+		dx, dy := adapt.F(7, c.EA.Scale), adapt.F(-3, c.EA.Scale)
+		calls = append(calls, call{"after Move of both: A.Contains(B)", adapt.Call("contains", moveGeom(pl.ga, dx, dy), moveGeom(pl.gb, dx, dy))})
+	}
 	for _, cl := range calls {
 		if cl.got != want {
 			if id := c03Known(&c, cl.got, want, w); id != "" {
